@@ -144,6 +144,9 @@ structure Cfg where
   n : Nat                  -- nodes per child graph
   cleanup : Bool := true   -- `cleanup_on_error`
   recorder : Bool := true  -- `remove_all_entries` with a first-exception recorder (the repaired loop)
+  fwd : Bool := false      -- switch_: the output forwards to the child terminal (`output_forwards_to_child_terminal`)
+  retireFirst : Bool := false  -- switch_, forwarding path only: the slot is retired BEFORE the outgoing branch is stopped
+                               -- (NOT the code: the order of seed s88, kept for the counter-lemma)
 
 structure MapSt (υ : Type) where
   ent : Nat → Option Entry := fun _ => none   -- `entries.entry_at(slot)`
@@ -415,16 +418,27 @@ def redRun {υ : Type} (cfg : Cfg) (h : Hooks υ) (cycles : List RedIn) (u0 : υ
       let ret := { r.1.m with w := emit .returned r.1.m.w }
       { ret := ret, fin := release cfg h false ret, err := some x }
 
-/-! ## the switch node (one active child, two graph slots) -/
+/-! ## the switch node (one active child, two graph slots)
+
+`activate_branch`: the slot that is not active is emptied (`storage.graphs[next_slot] = GraphValue{}`: the graph retired
+by the previous switch is destroyed; `GraphValue::reset` would stop it, swallowing, were it still started), the new
+graph is built there and its inputs are bound; then
+* owned output (`!output_forwards_to_child_terminal`): `switch_teardown` = clear the output binding, STOP the active
+  graph, reset the output, retire the slot (`previous_slot = active_slot; active_slot.reset()`);
+* forwarding output (`Cfg.fwd`): `bind_branch_output` to the NEW graph first (the old terminal is still alive while the
+  subscribers move), then STOP the active graph, then retire the slot;
+in both a throwing stop leaves `active_slot` on the (now stopped) old graph.  Then `active_slot = next_slot` and the new
+graph is started.  The two paths have the same lifecycle events; output bindings are not part of this model. -/
 
 structure SwSt (υ : Type) where
   active : Option Entry := none     -- the graph in `active_slot` (it may have failed to start / be stopped)
   activeKey : Option Int := none    -- `active_key` (reset by a teardown)
+  retired : Option Entry := none    -- the graph in `previous_slot`: retired by the last switch, destroyed at the next one
   gens : Int → Nat := fun _ => 0
   w : World υ
 
 /-- stop the graph in the active slot (`GraphView::stop` returns at once when it is not started): the body of
-    `switch_teardown` / `switch_node_stop`, and what the destruction of the storage does (swallowing) -/
+    `switch_teardown` / `switch_node_stop` -/
 def swStop {υ : Type} (cfg : Cfg) (h : Hooks υ) (m : SwSt υ) : SwSt υ × Option String :=
   match m.active with
   | some e =>
@@ -434,18 +448,32 @@ def swStop {υ : Type} (cfg : Cfg) (h : Hooks υ) (m : SwSt υ) : SwSt υ × Opt
     else (m, none)
   | none => (m, none)
 
-/-- `activate_branch`: stop the active branch, then start the new one (both paths of the code stop first) -/
+/-- `storage.graphs[slot] = GraphValue{}` on the retired slot, and the destruction of the storage:
+    `GraphValue::reset` stops a graph that is still started, swallowing -/
+def swDropRetired {υ : Type} (cfg : Cfg) (h : Hooks υ) (m : SwSt υ) : SwSt υ :=
+  match m.retired with
+  | some e => { m with retired := none, w := if e.started then (childStop h cfg.n e.cid m.w).1 else m.w }
+  | none => m
+
+/-- `active_slot = next_slot; …; next.start()` -/
+def swStartNew {υ : Type} (cfg : Cfg) (h : Hooks υ) (k : Int) (m1 : SwSt υ) : SwSt υ × Option String :=
+  let g := m1.gens k + 1
+  let r := childStart h cfg.n ⟨k, g⟩ m1.w
+  match r.2 with
+  | none => ({ m1 with active := some ⟨k, g, true⟩, activeKey := some k, gens := setGen m1.gens k g, w := r.1 }, none)
+  | some x => ({ m1 with active := some ⟨k, g, false⟩, activeKey := some k, gens := setGen m1.gens k g, w := r.1 }, some x)
+
+/-- `activate_branch` -/
 def swActivate {υ : Type} (cfg : Cfg) (h : Hooks υ) (k : Int) (m : SwSt υ) : SwSt υ × Option String :=
-  let stopRes := swStop cfg h m
-  match stopRes.2 with
-  | some x => (stopRes.1, some x)      -- `active_slot` still names the (stopped) old graph
-  | none =>
-    let m1 := stopRes.1
-    let g := m1.gens k + 1
-    let r := childStart h cfg.n ⟨k, g⟩ m1.w
-    match r.2 with
-    | none => ({ m1 with active := some ⟨k, g, true⟩, activeKey := some k, gens := setGen m1.gens k g, w := r.1 }, none)
-    | some x => ({ m1 with active := some ⟨k, g, false⟩, activeKey := some k, gens := setGen m1.gens k g, w := r.1 }, some x)
+  let m0 := swDropRetired cfg h m
+  if cfg.fwd && cfg.retireFirst then
+    -- the order of seed s88: `active_graph()` is null once the slot is retired, the outgoing branch is NOT stopped
+    swStartNew cfg h k { m0 with retired := m0.active, active := none, activeKey := none }
+  else
+    let stopRes := swStop cfg h m0
+    match stopRes.2 with
+    | some x => (stopRes.1, some x)      -- `active_slot` still names the (stopped) old graph
+    | none => swStartNew cfg h k { stopRes.1 with retired := stopRes.1.active, active := none, activeKey := none }
 
 structure SwIn where
   active : Bool := true       -- the switch node is evaluated
@@ -489,15 +517,15 @@ def swRun {υ : Type} (cfg : Cfg) (h : Hooks υ) (cycles : List SwIn) (u0 : υ) 
   | none =>
     let s := swStop cfg h { r.1 with w := emit .stopping r.1.w }
     let ret := { s.1 with w := emit .returned s.1.w }
-    { ret := ret, fin := (swStop cfg h ret).1, err := s.2 }
+    { ret := ret, fin := swDropRetired cfg h (swStop cfg h ret).1, err := s.2 }
   | some x =>
     if cfg.cleanup then
       let s := swStop cfg h { r.1 with w := emit .stopping r.1.w }
       let ret := { s.1 with w := emit .returned s.1.w }
-      { ret := ret, fin := (swStop cfg h ret).1, err := some x }
+      { ret := ret, fin := swDropRetired cfg h (swStop cfg h ret).1, err := some x }
     else
       let ret := { r.1 with w := emit .returned r.1.w }
-      { ret := ret, fin := (swStop cfg h ret).1, err := some x }
+      { ret := ret, fin := swDropRetired cfg h (swStop cfg h ret).1, err := some x }
 
 /-! ## the property monitor as a fold over the trace (what the theorems are about) -/
 
